@@ -123,7 +123,9 @@ func (x *Exec) evalMulti(st *State, e ast.Expr, want int) T {
 		t := x.typeOf(e.Type)
 		var okc string
 		if _, isIface := t.Underlying().(*types.Interface); isIface {
-			okc = and(not(eq(v.S, "0")), x.d.freshConst("implements", tyBool).S)
+			// whether a dynamic type implements an interface is a fixed (uninterpreted) fact
+			x.d.declareFun("implements", []string{"Int", "Int"}, "Bool")
+			okc = and(not(eq(v.S, "0")), app("implements", app("dyntype", v.S), fmt.Sprint(x.d.typeID(t))))
 		} else {
 			okc = and(not(eq(v.S, "0")), eq(app("dyntype", v.S), fmt.Sprint(x.d.typeID(t))))
 		}
@@ -387,6 +389,17 @@ func (x *Exec) evalBinary(st *State, e *ast.BinaryExpr) T {
 
 // equal builds an equality between two Go values.
 func (x *Exec) equal(l, r T) string {
+	// maps are values in this model: `m == nil` is an uninterpreted property of the value
+	for _, p := range [][2]T{{l, r}, {r, l}} {
+		if p[0].Ty != nil && p[1].S == "0" {
+			if _, isMap := p[0].Ty.Underlying().(*types.Map); isMap {
+				sn := x.d.sortOf(p[0].Ty)
+				fn := "mapnil_" + sanitize(sn)
+				x.d.declareFun(fn, []string{sn}, "Bool")
+				return app(fn, p[0].S)
+			}
+		}
+	}
 	return eq(l.S, r.S)
 }
 
@@ -817,10 +830,16 @@ type modSet struct {
 	// heapBases: for heap keys only ever stored through `ident.field`, the base identifiers
 	heapBases   map[string][]*ast.Ident
 	heapUnknown map[string]bool // stored through something else: no frame is known
+	// direct: variables assigned as a whole (v = ..., v++, range key/value); a slice variable in
+	// vars but not in direct is only written element-wise, so its length is loop-invariant
+	direct map[types.Object]bool
+	// heapDirect: heap fields assigned as a whole inside the region (as opposed to element stores only)
+	heapDirect map[string]bool
 }
 
 func (x *Exec) modifiedBy(nodes []ast.Node) *modSet {
-	m := &modSet{vars: map[types.Object]bool{}, heap: map[string]bool{}, ghost: map[string]bool{}, heapBases: map[string][]*ast.Ident{}, heapUnknown: map[string]bool{}}
+	m := &modSet{vars: map[types.Object]bool{}, heap: map[string]bool{}, ghost: map[string]bool{}, heapBases: map[string][]*ast.Ident{}, heapUnknown: map[string]bool{}, direct: map[types.Object]bool{}}
+	inIndex := 0
 	var visitLHS func(e ast.Expr)
 	visitLHS = func(e ast.Expr) {
 		e = ast.Unparen(e)
@@ -828,6 +847,9 @@ func (x *Exec) modifiedBy(nodes []ast.Node) *modSet {
 		case *ast.Ident:
 			if o := x.info().ObjectOf(e); o != nil {
 				m.vars[o] = true
+				if inIndex == 0 {
+					m.direct[o] = true
+				}
 			}
 		case *ast.SelectorExpr:
 			sel := x.info().Selections[e]
@@ -847,6 +869,13 @@ func (x *Exec) modifiedBy(nodes []ast.Node) *modSet {
 					f := su.Field(idx)
 					key := x.heapKeyField(pt.Elem(), f.Name(), f.Type())
 					m.heap[key] = true
+					if inIndex == 0 {
+						// the field itself is assigned (not only an element of the slice it holds)
+						if m.heapDirect == nil {
+							m.heapDirect = map[string]bool{}
+						}
+						m.heapDirect[key] = true
+					}
 					if simpleBase != nil && len(sel.Index()) == 1 {
 						m.heapBases[key] = append(m.heapBases[key], simpleBase)
 					} else {
@@ -864,7 +893,9 @@ func (x *Exec) modifiedBy(nodes []ast.Node) *modSet {
 				// x.a.b where x is value struct containing pointer: conservatively nothing more
 			}
 		case *ast.IndexExpr:
+			inIndex++
 			visitLHS(e.X)
+			inIndex--
 		case *ast.StarExpr:
 			if pt, ok := x.typeOf(e.X).Underlying().(*types.Pointer); ok {
 				if su, ok := pt.Elem().Underlying().(*types.Struct); ok && !isOpaqueStruct(pt.Elem()) {
